@@ -297,6 +297,14 @@ def native_namespace_probes(oracle):
     g = (r.get('goto') or [None])[0] if isinstance(r, dict) else None
     ok = bool(g) and g[0][0] == 1 and g[0][1] == files[1]['text'].index('Reset')
     out.append(('`import msg.{Reset}` where msg has a constructor Reset and, later, a type Reset: the value `Reset` must be the constructor', ok, g if g is not None else r))
+    # a module-qualified constant reaches the exporting module like a function does
+    files = [{'path': '/app/src/main.gleam', 'text': 'import konst\nfn f() { konst.limit + konst.get() }\n', 'root': 0},
+             {'path': '/app/src/konst.gleam', 'text': 'pub const limit = 1\npub fn get() { limit }\n', 'root': 0}]
+    app4 = files[0]['text']
+    r = oracle.ask('goto', json.dumps({'files': files, 'roots': [{'path': '/app', 'local': True, 'deps': []}], 'file': 0, 'offsets': [app4.index('.limit') + 1]}))
+    g = (r.get('goto') or [None])[0] if isinstance(r, dict) else None
+    ok = bool(g) and g[0][0] == 1 and g[0][1] == files[1]['text'].index('limit')
+    out.append(('`konst.limit` (a module-qualified constant) must reach the constant in konst.gleam', ok, g if g is not None else r))
     return out
 
 
